@@ -90,8 +90,9 @@ func (dist *CategoricalDistribution) Pdf(r Scalar, x ConstScalar) error {
 }
 
 func (dist *CategoricalDistribution) LogCdf(r Scalar, x ConstScalar) error {
-  r.Reset()
-  for i := 0; i <= int(x.GetFloat64()); i++ {
+  // log of an empty sum
+  r.SetFloat64(math.Inf(-1))
+  for i := 0; i < dist.Theta.Dim() && float64(i) <= x.GetFloat64(); i++ {
     r.LogAdd(r, dist.Theta.At(i), dist.t)
   }
   return nil
